@@ -18,8 +18,9 @@ Inductive c07_wop :=
 | WUpdate (k v : bytes) (prev : N)
 | WDelete (k : bytes) (expected : N).
 
-(* a raw dump given as a difference to an earlier one: positions removed, records added *)
-Definition diff := (list N * list (bytes * bytes))%type.
+(* a dump (decoded by the driver with the real coder: Decode, ParseRevision) given as a difference to
+   an earlier one: positions removed, records added *)
+Definition diff := (list N * list rec)%type.
 
 Record c07_variant := mkV7 {
   v7_cur : N;                                   (* committed revision when Compact is called *)
@@ -41,7 +42,7 @@ Record c07_case := mkC7 {
   c7_prefix : bytes;
   c7_skipped : list bytes;
   c7_borders : list bytes;                      (* observed: getCompactBorders (encoded keys) *)
-  c7_pre : list (bytes * bytes);                (* raw dump before *)
+  c7_pre : store;                               (* dump before, in engine order *)
   c7_reads : list c07_read;
   c7_before : list c07_rres;                    (* the reads before any pass *)
   c7_variants : list c07_variant
@@ -53,8 +54,8 @@ Fixpoint drop_positions {A} (i : N) (rm : list N) (l : list A) : list A :=
   | x :: t => if existsb (N.eqb i) rm then drop_positions (i + 1) rm t else x :: drop_positions (i + 1) rm t
   end.
 
-Definition apply_diff (base : list (bytes * bytes)) (d : diff) : list (bytes * bytes) :=
-  sort_by (fun a b => bltb (fst a) (fst b)) (drop_positions 0 (fst d) base ++ snd d).
+Definition apply_diff (base : store) (d : diff) : store :=
+  sort_by rec_ltb (drop_positions 0 (fst d) base ++ snd d).
 
 Definition before_of (cb : list c07_rres) (v : c07_variant) : list c07_rres :=
   match v7_before v with Some l => l | None => cb end.
@@ -135,34 +136,29 @@ Definition all_adds (oc : list (list rec * outcome)) : list rec := flat_map fst 
 Definition variant_pass (prefix : bytes) (sk : list bytes) (V : store) (v : c07_variant) : dst :=
   compact_all (clamp (v7_cur v) 0 (v7_req v)) 0 (ranges_of prefix sk) (init_d V (v7_oc v)).
 
-Definition variant_check (prefix : bytes) (sk : list bytes) (pre : list (bytes * bytes)) (V : store)
+Definition variant_check (prefix : bytes) (sk : list bytes) (V : store)
            (reads : list c07_read) (cb : list c07_rres) (v : c07_variant) : bool :=
   let R := clamp (v7_cur v) 0 (v7_req v) in
   let d := variant_pass prefix sk V v in
   let cur' := v7_cur2 v in
-  let post_raw := apply_diff pre (v7_post v) in
+  let post := apply_diff V (v7_post v) in
+  let final := apply_diff post (v7_final v) in
   (R =? v7_hdr v)
   && list_eqb dkind_eqb (map ds_kind (rev (d_trace d))) (v7_kinds v)
-  && match decode_dump post_raw, decode_dump (apply_diff post_raw (v7_final v)) with
-     | Some post, Some final =>
-         store_eqb (sort_by rec_ltb (d_store d)) post
-         && list_eqb rres_eqb7 (map (model_read (sort_by rec_ltb (d_ghost d)) cur') reads) (before_of cb v)
-         && list_eqb rres_eqb7 (map (model_read post cur') reads) (after_of cb v)
-         && match model_round post (cur' + 1) (v7_round v) with
-            | Some fin => store_eqb (sort_by rec_ltb fin) final
-            | None => false
-            end
-     | _, _ => false
+  && store_eqb (sort_by rec_ltb (d_store d)) post
+  && list_eqb rres_eqb7 (map (model_read (sort_by rec_ltb (d_ghost d)) cur') reads) (before_of cb v)
+  && list_eqb rres_eqb7 (map (model_read post cur') reads) (after_of cb v)
+  && match model_round post (cur' + 1) (v7_round v) with
+     | Some fin => store_eqb (sort_by rec_ltb fin) final
+     | None => false
      end.
 
 Definition c07_check (c : c07_case) : bool :=
-  match decode_dump (c7_pre c) with
-  | Some V =>
-      sortedb V
-      && list_eqb beqb (map (fun b => encode b 0) (compact_borders (c7_prefix c) (c7_skipped c))) (c7_borders c)
-      && forallb (variant_check (c7_prefix c) (c7_skipped c) (c7_pre c) V (c7_reads c) (c7_before c)) (c7_variants c)
-  | None => false
-  end.
+  let V := c7_pre c in
+  sortedb V
+  && list_eqb beqb (map (fun b => encode b 0) (compact_borders (c7_prefix c) (c7_skipped c))) (c7_borders c)
+  && list_eqb rres_eqb7 (map (model_read V max_rev) (c7_reads c)) (c7_before c)
+  && forallb (variant_check (c7_prefix c) (c7_skipped c) V (c7_reads c) (c7_before c)) (c7_variants c).
 
 (* ---------- the property on the implementation's observations ---------- *)
 
@@ -182,17 +178,10 @@ Fixpoint pairwise_unrelated (l : list bytes) : bool :=
 Definition good_config (prefix : bytes) (sk : list bytes) : bool :=
   forallb (fun s => has_prefix (with_slash prefix) s) sk && pairwise_unrelated sk.
 
-Definition raw_key (kv : bytes * bytes) : option bytes :=
-  match decode (fst kv) with DecOk k _ => Some k | _ => None end.
-
-Definition kv_eqb (a b : bytes * bytes) : bool := beqb (fst a) (fst b) && beqb (snd a) (snd b).
-
-(* every record of a key outside the backend's charge survives the pass *)
-Definition outside_untouched (prefix : bytes) (sk : list bytes) (pre post : list (bytes * bytes)) : bool :=
-  forallb (fun kv => match raw_key kv with
-                     | Some k => in_charge prefix sk k || existsb (kv_eqb kv) post
-                     | None => true
-                     end) pre.
+(* every record of a key outside the backend's charge is still there after the pass (writers may have
+   replaced an index record: same slot) *)
+Definition outside_untouched (prefix : bytes) (sk : list bytes) (pre post : store) : bool :=
+  forallb (fun x => in_charge prefix sk (rkey x) || existsb (same_slot x) post) pre.
 
 Definition has_delcas (v : c07_variant) : bool :=
   existsb (fun p => match p with (KDel, (_, OFailCond)) => true | _ => false end) (combine (v7_kinds v) (v7_oc v)).
@@ -235,7 +224,7 @@ Fixpoint round_ok (cur : N) (reads : list c07_read) (after : list c07_rres) (see
       && round_ok cur reads after (k :: seen) t
   end.
 
-Definition variant_oracle (prefix : bytes) (sk : list bytes) (pre : list (bytes * bytes)) (reads : list c07_read)
+Definition variant_oracle (prefix : bytes) (sk : list bytes) (pre : store) (reads : list c07_read)
            (cb : list c07_rres) (v : c07_variant) : option N :=
   if negb (outside_untouched prefix sk pre (apply_diff pre (v7_post v))) then
     (if good_config prefix sk then Some 0 else Some 1)
